@@ -38,6 +38,7 @@ registry! {
     "C19" => c19,
     "C20" => c20,
     "C21" => c21,
+    "C22" => c22,
     "C23" => c23,
     "C24" => c24,
     "C25" => c25,
